@@ -31,7 +31,8 @@ _enum_cache = {}
 ENUM_ROUNDS = {'quick': 5, 'thorough': 60}
 
 
-def beh_script(kind, proto, rng=None, cutk=None, compress=None):
+def beh_script(kind, proto, rng=None, cutk=None, compress=None,
+               encrypt=False):
     st = {'mode': 'reply', 'json': json.dumps(
         {'version': {'name': 'sim', 'protocol': proto},
          'description': {'text': 'x'}})}
@@ -61,6 +62,10 @@ def beh_script(kind, proto, rng=None, cutk=None, compress=None):
         b['compressed'] = True
         if kind == 'cut':
             b['cut'] = (b['cut'] or 0) + 40     # fail after login completed
+    if encrypt and kind in ('long', 'pdisc', 'rst'):
+        b['login'] = [['encrypt', {'bits': 1024, 'token_hex': '01020304',
+                                   'server_id': '-'}]] + b['login']
+        b['encrypted'] = True
     return b
 
 
@@ -190,6 +195,10 @@ def scenario_for(seed, index, tier):
                                ['disc_imm'], ['wait_quiet'], ['sleep'],
                                ['disc', 'connect', 'wait_play'],
                                ['disc', 'connect', 'sleep', 'connect'],
+                               ['connect', 'wait_play', 'write', 'disc'],
+                               ['connect', 'wait_play', 'write', 'write',
+                                rng.choice(['disc', 'disc_imm', 'connect'])],
+                               ['write'],
                                ['status_hs', 'wait_play'],
                                ['status_hp', 'wait_play'],
                                ['disc', 'connect', 'wait_quiet', 'connect',
@@ -213,10 +222,11 @@ def make(proto, allowed, threads, behs, refuse, relisten, rehandler, rng,
     conns = [beh_script(k, proto, cutk=rng.randrange(0, 40),
                         compress=(rng.choice([0, 64])
                                   if (not enumerated and rng.random() < 0.3)
-                                  else None))
+                                  else None),
+                        encrypt=(not enumerated and rng.random() < 0.25))
              for k in behs]
     qx = 0 if enumerated else rng.choice([0, 0, 1, 3])
-    if any(c.get('compressed') for c in conns):
+    if any(c.get('compressed') or c.get('encrypted') for c in conns):
         qx = 0      # early play packets would precede the framing switch
     return {
         'proto': proto, 'allowed': allowed, 'threads': threads,
@@ -267,7 +277,8 @@ def execute(scenario, tape):
                      'handler': scenario['rehandler']}}
 
     def build(w):
-        from minecraft.networking.connection import Connection
+        from minecraft.networking.connection import (Connection,
+                                                     PlayingReactor)
         from minecraft.networking.packets import clientbound, serverbound
         from minecraft.exceptions import IgnorePacket
         sim = w.sim
@@ -437,6 +448,13 @@ def execute(scenario, tape):
                                        handle_status=False,
                                        handle_ping=reuse)
                         after_refusal(rec)
+                    elif op == 'write':
+                        # a queued packet (only meaningful in play): what
+                        # follows finds the outgoing queue non-empty
+                        if isinstance(conn.reactor, PlayingReactor) and \
+                                in_play(last_conn_base):
+                            pkt = serverbound.play.ChatPacket(message='w')
+                            call('write', k, conn.write_packet, pkt)
                     elif op == 'disc':
                         call('disc', k, conn.disconnect)
                     elif op == 'disc_imm':
@@ -489,17 +507,28 @@ def execute(scenario, tape):
             w.wait_until(lambda: st['done_threads'] == n, budget=False)
             # a session started from a listener / exception handler gets the
             # chance to come up before everything is torn down
-            cb = [r for r in st['recs'] if r.op == 'connect' and
-                  r.by in ('handler', 'listener', 'status-handler') and
-                  r.r is not None
-                  and r.r.ok]
-            if cb and w.net.conns:
+            def callback_connects():
+                return [r for r in st['recs'] if r.op == 'connect' and
+                        r.by in ('handler', 'listener', 'status-handler')
+                        and (r.r is None or r.r.ok)]
+            for _ in range(8):
+                w.wait_until(lambda: all(r.r is not None
+                                         for r in callback_connects()),
+                             budget=True)
+                cb = callback_connects()
+                if not (cb and w.net.conns):
+                    break
                 tcp = w.net.conns[-1]
                 w.wait_until(lambda: quiet() or (
                     tcp.app is not None and (tcp.app.reached_play or
                                              tcp.app.fin_seen or
                                              tcp.app.state == 'dead')),
                     budget=True)
+                # the callback that saw this session end may have started
+                # yet another one meanwhile
+                if len(callback_connects()) == len(cb) and \
+                        w.net.conns[-1] is tcp:
+                    break
             st['final_from'] = sim.seq
             rounds = 0
             for rounds in range(6):
@@ -551,8 +580,28 @@ def stale_actions(sim, calls, st):
             if not (t.started_seq < o.r.inv and
                     (t.ended_seq is None or t.ended_seq > o.r.ret)):
                 continue
+            own_writes = {}
             for seq, tid, kind, d, vt in hist:
-                if tid != t.tid or seq <= o.r.ret:
+                if tid == o.tid and kind == 'attr-write' and \
+                        o.r.inv < seq < o.r.ret:
+                    own_writes.setdefault(d, seq)
+            for seq, tid, kind, d, vt in hist:
+                if tid != t.tid or seq <= o.r.inv:
+                    continue
+                if seq <= o.r.ret:
+                    # while the new session is being set up: overwriting
+                    # what connect()/status() has just installed is the same
+                    # stale action, merely earlier
+                    if kind == 'attr-write' and d in own_writes and \
+                            seq > own_writes[d]:
+                        failed = any(e[3] == tid and e[0] < seq
+                                     for e in st['errs'])
+                        return ('C16/stale-thread-action:%s' % (
+                            'exception-path' if failed else 'reaction'),
+                            {'thread': t.name, 'what': 'wrote ' + d +
+                             ' during the new session\'s set-up',
+                             'seq': seq, 'new_session_call': o.op,
+                             'new_session_returned': o.r.ret})
                     continue
                 what = None
                 if kind == 'attr-write':
@@ -848,6 +897,10 @@ def check(scenario, w, st, res):
     for r in calls:
         if r.op != 'connect' or r.by not in ('handler', 'listener', 'status-handler') or \
                 not r.r.ok:
+            continue
+        if r.r.inv >= final_from:
+            # made while the harness was already tearing everything down:
+            # the next teardown disconnect ends it before it can come up
             continue
         att = [d for _s, k_, d in r.attempts if k_ == 'connect']
         if len(att) != 1 or any(k_ == 'connect-refused'
